@@ -11,6 +11,29 @@ from common import canon_unordered, to_wire
 
 API_VERSION, KIND, PLURAL, NS, NAME = "example.dev/v1", "Widget", "widgets", "ns1", "w1"
 KEY = (API_VERSION, PLURAL, NS, NAME)
+# a cluster-scoped kind (`apiConfig.namespaced: false`): its own kr8s class, no namespace anywhere
+CKIND, CPLURAL = "ClusterWidget", "clusterwidgets"
+
+
+def namespaced(p) -> bool:
+    return bool(p.get("namespaced", True))
+
+
+def kind_of(p):
+    return (KIND, PLURAL) if namespaced(p) else (CKIND, CPLURAL)
+
+
+def ns_of(p):
+    return NS if namespaced(p) else None
+
+
+def key_of(p):
+    return (API_VERSION, kind_of(p)[1], ns_of(p), NAME)
+
+
+def owned_eff(p) -> bool:
+    """`own_resource and owner_namespace == namespace`: a namespaced parent never owns a cluster-scoped object"""
+    return bool(p["owned"]) and namespaced(p)
 LA = g.LA_ANNOTATION
 
 # strings that survive the literal -> CEL encoder whatever becomes of F2 (no numerals, quotes, backslashes)
@@ -236,16 +259,18 @@ def gen_program(r, nulls=False, policy=None):
                 create_overlay[ks[0]] = T[ks[0]] + "-at-create"
                 contradicts = True
     owned = r.random() < 0.7
+    is_namespaced = r.random() >= 0.15        # else a cluster-scoped kind: `apiConfig.namespaced: false`
     create_enabled = r.random() >= 0.15
     if not create_enabled:
         create_overlay, contradicts = None, False
     # an overlay step that (tries to) rewrite identity fields: the forced kind/name overlay is applied
     # last, so the materialised target is unchanged by it
     if r.random() < 0.15:
-        kind = r.choice(["metadata-input", "metadata-input", "name", "kind", "apiVersion", "namespace"])
+        kind = r.choice(["metadata-input", "metadata-input", "name", "kind", "apiVersion"] +
+                        (["namespace"] if is_namespaced else []))
         if kind == "metadata-input":
             md = copy.deepcopy(T.get("metadata") or {})
-            md.update({"name": "intruder", "namespace": "elsewhere"})
+            md.update({"name": "intruder", "namespace": "elsewhere"} if is_namespaced else {"name": "intruder"})
             inputs["metadata"] = md
             T.setdefault("metadata", {})
             spec_overlays.append({"overlay": {"metadata": "=inputs.metadata"}})
@@ -257,18 +282,23 @@ def gen_program(r, nulls=False, policy=None):
             spec_overlays.append({"overlay": {"kind": "Gadget"}})
         else:
             spec_overlays.append({"overlay": {"apiVersion": "other.dev/v9"}})
-    return {"createEnabled": create_enabled, "T": T, "base": spec_base, "overlays": spec_overlays, "template": use_template, "policy": pol,
+    return {"namespaced": is_namespaced, "createEnabled": create_enabled, "T": T, "base": spec_base, "overlays": spec_overlays, "template": use_template, "policy": pol,
             "delay": delay, "createDelay": cdelay, "createOverlay": create_overlay, "contradicts": contradicts,
             "owned": owned, "inputs": inputs}
 
 
 def program_spec(p) -> tuple[dict, dict | None]:
     """(ResourceFunction spec, ResourceTemplate spec or None)"""
-    spec: dict = {"apiConfig": {"apiVersion": API_VERSION, "kind": KIND, "plural": PLURAL,
-                                "name": "=inputs.name", "namespace": NS, "owned": p["owned"]}}
+    kind, plural = kind_of(p)
+    spec: dict = {"apiConfig": {"apiVersion": API_VERSION, "kind": kind, "plural": plural,
+                                "name": "=inputs.name", "owned": p["owned"]}}
+    if namespaced(p):
+        spec["apiConfig"]["namespace"] = NS
+    else:
+        spec["apiConfig"]["namespaced"] = False
     tmpl = None
     if p["template"]:
-        tmpl = {"template": {"apiVersion": API_VERSION, "kind": KIND, **copy.deepcopy(p["base"])}}
+        tmpl = {"template": {"apiVersion": API_VERSION, "kind": kind, **copy.deepcopy(p["base"])}}
         spec["resourceTemplateRef"] = {"name": "tmpl"}
     else:
         spec["resource"] = copy.deepcopy(p["base"])
@@ -290,7 +320,10 @@ def program_spec(p) -> tuple[dict, dict | None]:
 
 
 def forced(p):
-    return {"apiVersion": API_VERSION, "kind": KIND, "metadata": {"name": NAME, "namespace": NS}}
+    md = {"name": NAME}
+    if namespaced(p):
+        md["namespace"] = NS
+    return {"apiVersion": API_VERSION, "kind": kind_of(p)[0], "metadata": md}
 
 
 def target_of(p) -> dict:
@@ -311,7 +344,7 @@ def owner_state(p, live):
     (None, "skip") where `_validate_owner_reffed` itself would raise"""
     import koreo_util as ku
 
-    if not p["owned"] or live is None:
+    if not owned_eff(p) or live is None:
         return True, None
     md = live.get("metadata") if isinstance(live, dict) else None
     if not isinstance(md, dict) or "ownerReferences" not in md:
@@ -333,7 +366,7 @@ def create_view(p) -> dict:
 
     cv = deep_merge(target_of(p), p["createOverlay"] or {})
     cv = deep_merge(cv, forced(p))
-    if p["owned"]:
+    if owned_eff(p):
         refs = cv["metadata"].get("ownerReferences")
         if not refs:
             refs = [copy.deepcopy(ku.OWNER_REF)]
@@ -362,7 +395,7 @@ def pass_req(p, live):
     import koreo_util as ku
 
     return {"op": "pass",
-            "cfg": {"policy": policy_of(p), "shouldOwn": bool(p["owned"]), "ownerRef": to_wire(ku.OWNER_REF),
+            "cfg": {"policy": policy_of(p), "shouldOwn": owned_eff(p), "ownerRef": to_wire(ku.OWNER_REF),
                     "createEnabled": bool(p.get("createEnabled", True)),
                     "createDelay": to_wire(p["createDelay"]),
                     "createView": to_wire(create_view(p))},
@@ -396,8 +429,9 @@ class ServerRules:
     `metadata` / `status` changed.  Used as the cluster's `decorate` hook and for direct edits of the
     stored object between passes."""
 
-    def __init__(self):
+    def __init__(self, key=KEY):
         self.cluster = None
+        self.key = key
 
     def stamp(self, old, new):
         if not isinstance(new, dict) or not isinstance(new.get("metadata"), dict):
@@ -430,7 +464,7 @@ class ServerRules:
         return new
 
     def __call__(self, obj):
-        old = self.cluster.objects.get(KEY) if self.cluster is not None else None
+        old = self.cluster.objects.get(self.key) if self.cluster is not None else None
         return self.stamp(old, obj)
 
 
@@ -478,7 +512,8 @@ class Prepared:
             fn = await self.prep()
             if not isinstance(fn, ResourceFunction):
                 return [{"prepare": ku.outcome_obs(fn)}]
-            rules = ServerRules()
+            KEY = key_of(p)
+            rules = ServerRules(KEY)
             c = clmod.Cluster(decorate=rules)
             rules.cluster = c
             if stored is not None:
